@@ -105,3 +105,16 @@ package p2pkeswarm
 //@     assert [ofkey] ghost(canonical) && arg1 == out
 //@   after call ShakeSum256:
 //@     set shake = true
+
+// an address parses only if its identity part decoded without error (and the inner address parsed)
+//@ func ParseAddr
+//@   noframe
+//@   ghostvar idok = false
+//@   ghostvar innerok = false
+//@   ensures [rejects] ret1 == nil ==> ghost(idok) && ghost(innerok)
+//@   after call (*PeerID).UnmarshalText:
+//@     set idok = res0 == nil
+//@   after call inner:
+//@     set innerok = res1 == nil
+//@   fnspec inner:
+//@     pure
